@@ -299,6 +299,50 @@ func runC15(c *Ctx) {
 
 	r6 := c.Rule("R6", "rollback releases the item locks only when committedState >= lockTrackedItems (R4), and every rollback rewinds committedState: phase1Commit therefore logs lockTrackedItems before every acquisition of the item locks, also when the retry loop acquires them again (row of C08.R1)", 3)
 	logBeforeActRule(c, r6, []logActStep{{"lockTrackedItems", kTxLockTracked}})
+	r7 := c.Rule("R7", "held node-key locks are accounted for when the key set is re-merged for a retry: in mergeNodesKeys every held key is either carried over into the new set (handed to the lookup's Update) or released (Unlock) - an iteration that does neither leaves a lock nobody owns any more: the retry then blocks on its own lock until maxTime, and other writers until the TTL", 2)
+	{
+		f := w.Fn("common.Transaction.mergeNodesKeys")
+		g := w.G(f)
+		c.Analysed(f)
+		info := f.Pkg.TypesInfo
+		keysF := w.Field("common", "Transaction", "nodesKeys")
+		var head *GNode
+		for _, n := range g.Nodes {
+			if n.RangeHead != nil && fieldOfSelector(info, n.RangeHead.X) == keysF {
+				head = n
+			}
+		}
+		if head == nil {
+			c.Violated(r7, "mergeNodesKeys: loop over the held keys", f.Decl.Pos(), "no range over t.nodesKeys found", nil)
+		} else {
+			var kv types.Object
+			if id, ok := head.RangeHead.Value.(*ast.Ident); ok {
+				kv = info.Defs[id]
+			}
+			handled := func(n *GNode) bool {
+				for _, cs := range n.Calls {
+					if cs.Key == kL2Unlock || strings.HasSuffix(cs.Key, ".Update") || strings.HasSuffix(cs.Key, ".Add") {
+						for _, a := range cs.Call.Args {
+							if kv != nil && mentionsObj(info, a, kv) {
+								return true
+							}
+						}
+					}
+				}
+				return false
+			}
+			var body []int
+			for _, e := range head.Succs {
+				if e.Cond == 1 {
+					body = append(body, e.To)
+				}
+			}
+			c.Check(kv != nil && len(g.Find(handled)) >= 2, r7, "mergeNodesKeys: carry-over and release sites present", head.RangeHead.Pos(), fmt.Sprintf("%d sites", len(g.Find(handled))), "the loop no longer hands the held key to Update / Unlock", nil)
+			offs := g.MustFollowFrom(body, handled, func(n *GNode) bool { return n == head || n.Exit })
+			c.Offences(g, offs, r7, "mergeNodesKeys: every held key is carried over or released", head.RangeHead.Pos(), "each iteration reaches Update(.., nk) or Unlock(nk)",
+				"an iteration over a held key can end without carrying the key over or unlocking it")
+		}
+	}
 	r5 := c.Rule("R5", "every lock is taken with a positive, bounded TTL", 12)
 	{
 		maxF := w.Field("common", "Transaction", "maxTime")
